@@ -33,7 +33,7 @@ func runVec(v *Vec) (res string) {
 		curWorld = nil
 	}()
 	switch v.Kind {
-	case "step":
+	case "step", "rebuild":
 		for k := 0; k < v.N; k++ {
 			for _, in := range v.Inj {
 				if in.At == k {
@@ -41,6 +41,15 @@ func runVec(v *Vec) (res string) {
 				}
 			}
 			cpu.Step()
+			if v.Kind == "rebuild" {
+				// continue on a CPU rebuilt from the PUBLIC state only (a copy of States plus the exported fields)
+				n := &z80.CPU{States: cpu.States, Memory: cpu.Memory, IO: cpu.IO, RETNHandler: cpu.RETNHandler, RETIHandler: cpu.RETIHandler,
+					BreakPoints: cpu.BreakPoints, HALT: cpu.HALT}
+				if cpu.Interrupt != nil {
+					n.Interrupt = &z80.Interrupt{Type: cpu.Interrupt.Type, Data: append([]uint8{}, cpu.Interrupt.Data...)}
+				}
+				cpu = n
+			}
 		}
 	case "run":
 		// N consecutive calls of Run, each with a watchdog; the result is the error class of every call and the final state
@@ -104,6 +113,10 @@ func main() {
 		cmdGen(os.Args[2:])
 	case "memio":
 		cmdMemio()
+	case "par":
+		cmdPar(os.Args[2:])
+	case "ctx":
+		cmdCtx(os.Args[2:])
 	default:
 		fmt.Fprintln(os.Stderr, "unknown command")
 		os.Exit(2)
